@@ -77,14 +77,16 @@ ASSUMPTIONS = [
 # 10**mean(log10) in the cylinder/prism average).  They perturb a datum by
 # (few 1e-16) x (log-sensitivity <= ~8 skin depths) of the *total* field at the
 # receiver, hence the error is measured against |ref| + FLOOR*|field vector|.
-# TOL_DATA is a screening threshold (typical worst 1e-13..1e-12 on the pinned
-# tree; DESIGN: 1e-12, prototype 3e-16 for bit-identical input): a datum above
+# TOL_DATA is a screening threshold (DESIGN: 1e-12, prototype 3e-16 for
+# bit-identical input; on the pinned tree 99 % of the runs are below 1e-11,
+# the tail up to 1e-10 is quantised cancellation noise of empymod under 1-3 ulp
+# changes of a conductivity): a datum above
 # it is not yet a violation but is judged against the *measured* resolution of
 # the reference for that case (conditioning(): receivers in a very resistive
 # air layer make empymod's digital-filter output move by 1e-7 for a 1e-14
 # change of a layer parameter); ~1 % of the runs need that, they are counted
 # in 'runs_judged_at_reduced_resolution'.
-TOL_DATA = 1e-11
+TOL_DATA = 1e-10
 FLOOR = 1e-2
 TOL_IMAT = 1e-12
 TOL_PROP = 1e-12          # extracted layer conductivity vs table (relative)
@@ -668,18 +670,23 @@ def conditioning(c, table, merged, ref, nrm, **variant):
     """Resolution of the reference modeller for this case.
 
     50 x the largest change of a datum (same error measure as the check)
-    under five random +-1e-14 relative perturbations of all layer parameters,
+    under twelve random relative perturbations (log-uniform size 2e-16..1e-14,
+    random sign, independent per layer and parameter) of all layer parameters,
     i.e. of the size of the legitimate rounding differences (|p| <= 32 in a
-    log mapping times a few ulp).
+    log mapping times a few ulp).  Where cancellation inside the 1D modeller
+    dominates, its output is *quantised* noise (a 2-ulp change of one
+    conductivity moves a datum by 1e-11, a 10-ulp change by 3e-15): hence
+    many small probes instead of one, and the factor.
     """
     r = gen.rng(c['seed'], 'C19', 'probe', c['k'], c['i'], int(merged))
     out = np.zeros(ref.shape)
-    for _ in range(5):
+    for _ in range(12):
         t2 = Table(c)
         for name in ('sig_h', 'sig_v', 'mu', 'eps'):
             v = getattr(t2, name)
             if v is not None:
-                setattr(t2, name, v*(1 + 1e-14*r.choice([-1.0, 1.0], v.size)))
+                eps = 10.0**r.uniform(-15.7, -14.0, v.size)
+                setattr(t2, name, v*(1 + eps*r.choice([-1.0, 1.0], v.size)))
         r2, _ = ref_data(c, t2, merged, with_norm=False, **variant)
         ch = _err(r2, ref, nrm)
         out = np.maximum(out, np.where(np.isfinite(ch), ch, np.inf))
@@ -705,7 +712,8 @@ def check_forward(rec, c, table, model, ref, nrm, ref_m, nrm_m, allow):
     else:
         want = np.ones(ref.shape, dtype=bool)
     dropped = None
-    for run in c['runs']:
+    passed = []
+    for irun, run in enumerate(c['runs']):
         lo = run['lopts']
         merged = bool(lo.get('merge', False))
         info = {'case': _brief(c), 'run': run}
@@ -769,6 +777,8 @@ def check_forward(rec, c, table, model, ref, nrm, ref_m, nrm_m, allow):
                 f'emg3d {d[j]} reference {r_[j]}; method '
                 f'{lo.get("method", "<default>")}, layered_opts {lo}',
                 {**info, 'emg3d': d, 'reference': r_})
+        else:
+            passed.append(irun)
         # what is stored where nothing was asked for (informative only)
         if not want.all():
             rest = ~want
@@ -790,7 +800,7 @@ def check_forward(rec, c, table, model, ref, nrm, ref_m, nrm_m, allow):
         if lo.get('ellipse', {}).get('radius') is None and \
                 lo.get('method', 'cylinder') in ('prism', 'cylinder'):
             rec.extra_add('default_radius_runs')
-    return obs, std
+    return obs, std, passed
 
 
 def check_extract(rec, c, table, model):
@@ -904,9 +914,6 @@ def check_gradient(rec, c, table, model, ref, nrm, obs, std, allow):
         phi0 = float(sim.misfit)
         g = np.array(sim.gradient)
     except Exception as e:  # noqa
-        if (c['cls'] == 'dip2x3' and isinstance(e, ValueError)
-                and 'wrong length' in str(e)):
-            return      # already reported by the forward clause
         rec.inconclusive(f'misfit/gradient raised {type(e).__name__}: {e}',
                          info)
         return
@@ -1021,11 +1028,18 @@ def run_case(rec, c):
     rec.margin('oracle_merged_vs_unmerged', float(np.max(
         _err(ref_m, ref, nrm))))
     allow = {}      # resolution of the reference, computed when needed
-    obs, std = check_forward(rec, c, table, model, ref, nrm, ref_m, nrm_m,
-                             allow)
+    obs, std, passed = check_forward(rec, c, table, model, ref, nrm, ref_m,
+                                     nrm_m, allow)
     check_extract(rec, c, table, model)
     if c['grad'] is not None:
-        check_gradient(rec, c, table, model, ref, nrm, obs, std, allow)
+        # The gradient clause needs to know how well the data of *this* run
+        # are determined; if they already disagree with the reference (reported
+        # above) that is not known, e.g. because the data were computed for
+        # another geometry.
+        if c['grad']['run'] in passed:
+            check_gradient(rec, c, table, model, ref, nrm, obs, std, allow)
+        else:
+            rec.extra_add('gradients_skipped_after_data_mismatch')
     rec.extra_add('cases_' + c['cls'])
     rec.sample({'cls': c['cls'], 'mapping': c['mapping'], 'vti': c['vti'],
                 'shape': [len(c['hx']), len(c['hy']), len(c['hz'])],
